@@ -10,7 +10,7 @@ CLAIMED = {
          "Trusts the harness's scripted actor and the oracle in harness/src/check.rs; SIM explores schedules reachable through yields/timers on one thread, MT whatever the OS produces."),
  "C02": ("sim+mt", "trace monitor: real-time precedence of sends (CallEnd before CallStart) must be preserved by handler entries; stop() as an in-band marker",
          "Exploration over seeded scenarios incl. capacity-1 mailboxes with parked senders and mixed tell/ask/timeout/erased variants.", "As C01."),
- "C03": ("sim+mt", "reply-integrity monitor (reply is a function of request id and handling sequence) + quiescence completeness (no open call at the end of a virtual-time-quiescent history) + real-thread death-race hang monitor; further real-thread rounds: actor ended by JoinHandle::abort() or by shutdown of its runtime, runtimes without a time driver, a tracing subscriber that re-enters rsactor from the dead-letter path",
+ "C03": ("sim+mt", "reply-integrity monitor (reply is a function of request id and handling sequence) + quiescence completeness (no open call at the end of a virtual-time-quiescent history) + real-thread death-race hang monitor; further real-thread rounds: actor ended by JoinHandle::abort() or by shutdown of its runtime, runtimes without a time driver, a tracing subscriber that re-enters rsactor from the dead-letter path, actors on a runtime that is no longer driven once their JoinHandle resolved",
          "Exploration; liveness restated as quiescence in virtual time (SIM) and bounded progress with heartbeat guard (MT).", "As C01; MT bound 10 s after the actor's JoinHandle resolved."),
  "C04": ("sim+mt", "per-actor hook-trace automaton (on_start once, no overlap, on_stop at most once and last, killed flag iff kill consumed); real-thread rounds dropping the last references from other threads while on_run spins",
          "Exploration over lifecycle/kill/fault profiles: every cause at every phase, hook outcomes ok/err/panic.", "As C01."),
@@ -22,7 +22,7 @@ CLAIMED = {
          "Exploration over clone/drop/downgrade/upgrade/erased-conversion histories; 'ends' decided at virtual-time quiescence.", "As C01."),
  "C08": ("sim", "poll-level monitor of on_run (every poll, completion and cancellation is an event): no poll while an accepted tell waits or a kill is pending; Ok(false) final; Ok(true) re-run by next quiescence; Err -> on_stop(false); hooks that deliberately use up tokio's cooperative budget so that forced yields fall at arbitrary places",
          "Exploration over on_run scripts x arrival patterns x capacities.", "As C01."),
- "C09": ("sim+probe", "occupancy prefix monitor from boundary events (accepted tells/stop markers minus taken) + quiescent 'no idle wait' check + fresh-process probes of the default-capacity configuration",
+ "C09": ("sim+probe+mt", "occupancy prefix monitor from boundary events (accepted tells/stop markers minus taken) + quiescent 'no idle wait' check + fresh-process probes of the default-capacity configuration",
          "Exploration; occupancy is exact for tell-only traffic in SIM, a sound lower bound otherwise.", "As C01."),
  "C10": ("sim+mt", "virtual-time monitor: Timeout never before the deadline and at most one timer tick after it, never when the reply/failure instant precedes the deadline; Ok returns at the reply instant; other failures at their own instant",
          "Exploration over timeout x completion-time x mailbox-state grid in virtual time (1 ms timer granularity tolerated; exact ties accept both outcomes).", "As C01; tokio's 1 ms timer wheel."),
@@ -34,13 +34,13 @@ CLAIMED = {
          "Exploration.", "As C01; cancelled/unfinished calls make the affected key inconclusive, not violated."),
  "C14": ("sim+mt", "wait-for oracle over in-actor ask events: an ask that closes a cycle of unanswered in-flight asks must panic with 'Deadlock detected' naming the cycle; nothing pending at quiescence",
          "Exploration over cyclic topologies, cycle length 1-5, edges from every hook, ask/ask_with_timeout/ask_join/erased; simultaneous mutual asks on real threads.", "Requires the deadlock-detection feature build; concurrent asks from one hook are never generated (documented limitation)."),
- "C15": ("sim", "same oracle, soundness side: no deadlock panic unless a chain of unanswered asks exists (grey edges: timed out/dead callee not yet observed); wait-for graph snapshot (hook H1) equals in-flight in-actor asks at quiescent instants and is empty at the end",
+ "C15": ("sim+mt", "same oracle, soundness side: no deadlock panic unless a chain of unanswered asks exists (grey edges: timed out/dead callee not yet observed); wait-for graph snapshot (hook H1) equals in-flight in-actor asks at quiescent instants and is empty at the end; real-thread lock-contention rounds (in-actor asks ending by timeout next to answered ones on up to 16 workers) with the same two checks",
          "Exploration.", "Uses the cfg(rsactor_verif) wait_for_snapshot hook."),
  "C16": ("sim-diff", "differential oracle: each scenario executed with direct references and again with every operation routed through randomly derived trait objects; canonical traces must be identical; all views of one actor agree on identity/is_alive",
          "Exploration (exact trace equality per scenario).", "As C01."),
  "C17": ("mt", "real-thread blocking-API monitor: std threads / spawn_blocking / runtime workers call blocking_tell/ask (with and without timeout, deprecated aliases, erased forwarders) against live, gated-full, dying and dead actors; the MT forms of the delivery/order/integrity/dead-letter oracles plus wall-clock deadline checks guarded by a heartbeat; callers attached to runtimes whose workers are all held synchronously or that have no time driver",
          "Exploration on real threads; deadlines restated as bounded progress (timeout + 2 s) under a heartbeat guard; 'never early' is exact (monotonic clock).", "As C01; wall-clock bounds are evaluated only while the heartbeat shows the machine was not stalled (max lateness < 250 ms)."),
- "C18": ("featdiff", "differential oracle across feature builds: harness binaries built against rsactor with different subsets of {tracing, metrics, test-utils, deadlock-detection} run identical seeded cycle-free scenarios; per-scenario canonical trace hashes must equal the default-feature build's",
+ "C18": ("featdiff", "differential oracle across feature builds: harness binaries built against rsactor with different subsets of {tracing, metrics, test-utils, deadlock-detection} run identical seeded cycle-free scenarios; per-scenario canonical trace hashes must equal the default-feature build's; for real-thread workloads (runtimes without a time driver) equal verdict of all trace monitors on default vs all features",
          "Exploration (exact trace equality per scenario and feature set; quick: default, all four, one seed-chosen subset; thorough: all 16 subsets).", "SIM determinism (single thread, virtual clock) makes equality exact; metric values and wall-clock measurements are not part of the trace."),
  "C19": ("gen+sim", "generated-program oracle: grammar-based corpus of actors/handlers compiled against /repo and executed through ask and tell under a capturing tracing Subscriber; expectations come from the documented decision table; negative programs must fail to compile, positive controls must compile; on_tell_result exactly-once-after-tell checked on SIM traces",
          "Exploration over generated programs (translation-validation flavour: each handler's Reply type is checked at compile time, its value against a direct method call).", "Expectation table transcribed from docs/tell_error_logging.md and the property statement, not from the macro source."),
